@@ -716,6 +716,7 @@ package apd
 //@ define p0ctx(c: *Context): bool = c.Precision == 0 && -100000 <= c.MinExponent && c.MinExponent <= 0 && 0 <= c.MaxExponent && c.MaxExponent <= 100000
 //@ define inlimits0(c: *Context, C: int, E: int): bool = C >= 0 && -100000 <= E && E <= 100000 && E + nd10(C) - 1 >= c.MinExponent && E + nd10(C) - 1 <= c.MaxExponent
 //@ define Exact0(neg: bool, C: int, E: int, d: *Decimal, ret: cond): bool = d.Form == Finite && d.Negative == neg && val(d.Coeff) == C && d.Exponent == E && ret == 0
+//@ define overlimit0(c: *Context, C: int, E: int): bool = C > 0 && -100000 <= E && E <= 100000 && E + nd10(C) - 1 > c.MaxExponent && E + nd10(C) - 1 <= 100000
 //@ func Rounder.Round
 //@   props C01 C02 C07 C20
 //@   unreachable ret2: diff > 0 at that point, so diff < MinExponent cannot hold
@@ -732,6 +733,7 @@ package apd
 //@   ensures [inv] inv(d) && closed(ret)
 //@   ensures [arith] only(ret, Inexact | Rounded | Subnormal | Underflow | Overflow | Clamped | SystemOverflow | SystemUnderflow)
 //@   ensures [exact0] disableIfPrecisionZero && p0ctx(c) && old(x.Form == Finite && inv(x)) && old(inlimits0(c, val(x.Coeff), x.Exponent)) ==> Exact0(old(x.Negative), old(val(x.Coeff)), old(x.Exponent), d, ret)
+//@   ensures [ovf0] disableIfPrecisionZero && p0ctx(c) && old(x.Form == Finite && inv(x)) && old(overlimit0(c, val(x.Coeff), x.Exponent)) ==> ROvf(old(x.Negative), d, ret)
 //@   ensures [esys] (disableIfPrecisionZero || c.Precision != 0) && (old(x.Exponent) < -100000 || old(x.Exponent) > 100000) ==> hassys(ret)
 //@   ensures [infovf] old(finwfI(c, x)) && old(x.Exponent) + nd10(old(val(x.Coeff))) - 1 > c.MaxExponent ==> hassys(ret) || (d.Form == Infinite && d.Negative == old(x.Negative) && only(ret, Rounded | Inexact | Overflow | Clamped))
 //@   ensures [fits] old(finwf(c, x)) && r == c.Rounding && !hassys(ret) ==> fits(c, d)
@@ -799,6 +801,7 @@ package apd
 //@   ensures [inv] inv(d) && closed(ret)
 //@   ensures [arith] only(ret, Inexact | Rounded | Subnormal | Underflow | Overflow | Clamped | SystemOverflow | SystemUnderflow)
 //@   ensures [exact0] p0ctx(c) && old(x.Form == Finite) && old(inlimits0(c, val(x.Coeff), x.Exponent)) ==> Exact0(old(x.Negative), old(val(x.Coeff)), old(x.Exponent), d, ret)
+//@   ensures [ovf0] p0ctx(c) && old(x.Form == Finite) && old(overlimit0(c, val(x.Coeff), x.Exponent)) ==> ROvf(old(x.Negative), d, ret)
 //@   ensures [rounded] wfctx(c) && old(x.Form) == Finite ==> Rounded(c, old(x.Negative), old(val(x.Coeff)), old(x.Exponent), d, ret)
 //@   ensures [fits] wfctx(c) && !hassys(ret) ==> fits(c, d)
 //@   ensures [shape] d.Negative == old(x.Negative) && (d.Form == old(x.Form) || d.Form == Infinite)
@@ -829,6 +832,7 @@ package apd
 //@   ensures [closed] closed(ret0) && inv(d)
 //@   ensures [trap] ret1 != nil <==> trapped(c, ret0)
 //@   ensures [exact0] p0ctx(c) && old(x.Form == Finite) && old(inlimits0(c, val(x.Coeff), x.Exponent)) ==> Exact0(old(x.Negative), old(val(x.Coeff)), old(x.Exponent), d, ret0)
+//@   ensures [ovf0] p0ctx(c) && old(x.Form == Finite) && old(overlimit0(c, val(x.Coeff), x.Exponent)) ==> ROvf(old(x.Negative), d, ret0)
 //@   ensures [rounded] wfctx(c) && old(x.Form) == Finite ==> Rounded(c, old(x.Negative), old(val(x.Coeff)), old(x.Exponent), d, ret0)
 //@   ensures [sysiff] wfctx(c) && old(x.Form) == Finite ==> SysIff(c, old(x.Negative), old(val(x.Coeff)), old(x.Exponent), ret0)
 //@   ensures [nan] NaN1(x, d, ret0)
@@ -853,6 +857,7 @@ package apd
 //@   ensures [trap] ret1 != nil <==> (trapped(c, ret0) || old(bothfin(x, y) && gap(x, y)))
 //@   ensures [nan] NaN2(x, y, d, ret0)
 //@   ensures [exact0] p0ctx(c) && old(bothfin(x, y) && !gap(x, y)) && old(inlimits0(c, abs(addS(x, y, y.Negative != subtract)), min(x.Exponent, y.Exponent))) ==> Exact0(old(addNeg(c, x, y.Negative != subtract, addS(x, y, y.Negative != subtract))), abs(old(addS(x, y, y.Negative != subtract))), old(min(x.Exponent, y.Exponent)), d, ret0)
+//@   ensures [ovf0] p0ctx(c) && old(bothfin(x, y) && !gap(x, y)) && old(overlimit0(c, abs(addS(x, y, y.Negative != subtract)), min(x.Exponent, y.Exponent))) ==> ROvf(old(addNeg(c, x, y.Negative != subtract, addS(x, y, y.Negative != subtract))), d, ret0)
 //@   ensures [infinv] old(!isnan(x) && !isnan(y) && x.Form == Infinite && y.Form == Infinite && x.Negative != (y.Negative != subtract)) ==> (d.Form == NaN && ret0 == InvalidOperation)
 //@   ensures [inf] old(!isnan(x) && !isnan(y) && (x.Form == Infinite || y.Form == Infinite) && !(x.Form == Infinite && y.Form == Infinite && x.Negative != (y.Negative != subtract))) ==> (d.Form == Infinite && d.Negative == old(ite(x.Form == Infinite, x.Negative, y.Negative != subtract)) && ret0 == 0)
 //@   ensures [rounded] wfctx(c) && old(bothfin(x, y) && !gap(x, y)) ==> Rounded(c, old(addNeg(c, x, y.Negative != subtract, addS(x, y, y.Negative != subtract))), abs(old(addS(x, y, y.Negative != subtract))), old(min(x.Exponent, y.Exponent)), d, ret0)
@@ -901,6 +906,7 @@ package apd
 //@   ensures [closed] closed(ret0) && inv(d)
 //@   ensures [trap] ret1 != nil <==> trapped(c, ret0)
 //@   ensures [exact0] p0ctx(c) && old(x.Form == Finite) && old(inlimits0(c, val(x.Coeff), x.Exponent)) ==> Exact0(false, old(val(x.Coeff)), old(x.Exponent), d, ret0)
+//@   ensures [ovf0] p0ctx(c) && old(x.Form == Finite) && old(overlimit0(c, val(x.Coeff), x.Exponent)) ==> ROvf(false, d, ret0)
 //@   ensures [rounded] wfctx(c) && old(x.Form) == Finite ==> Rounded(c, false, old(val(x.Coeff)), old(x.Exponent), d, ret0)
 //@   ensures [nan] NaN1(x, d, ret0)
 //@   ensures [inf] Inf1(x, false, d, ret0)
@@ -915,6 +921,7 @@ package apd
 //@   ensures [closed] closed(ret0) && inv(d)
 //@   ensures [trap] ret1 != nil <==> trapped(c, ret0)
 //@   ensures [exact0] p0ctx(c) && old(x.Form == Finite) && old(inlimits0(c, val(x.Coeff), x.Exponent)) ==> Exact0(old(ite(val(x.Coeff) == 0, false, !x.Negative)), old(val(x.Coeff)), old(x.Exponent), d, ret0)
+//@   ensures [ovf0] p0ctx(c) && old(x.Form == Finite) && old(overlimit0(c, val(x.Coeff), x.Exponent)) ==> ROvf(!old(x.Negative), d, ret0)
 //@   ensures [rounded] wfctx(c) && old(x.Form) == Finite ==> Rounded(c, old(ite(val(x.Coeff) == 0, false, !x.Negative)), old(val(x.Coeff)), old(x.Exponent), d, ret0)
 //@   ensures [nan] NaN1(x, d, ret0)
 //@   ensures [inf] Inf1(x, !old(x.Negative), d, ret0)
@@ -932,6 +939,7 @@ package apd
 //@   ensures [trap] ret1 != nil <==> trapped(c, ret0)
 //@   ensures [nan] NaN2(x, y, d, ret0)
 //@   ensures [exact0] p0ctx(c) && old(bothfin(x, y)) && old(-100000 <= x.Exponent && x.Exponent <= 100000 && -100000 <= y.Exponent && y.Exponent <= 100000) && old(inlimits0(c, val(x.Coeff) * val(y.Coeff), x.Exponent + y.Exponent)) ==> Exact0(old(x.Negative != y.Negative), old(val(x.Coeff) * val(y.Coeff)), old(x.Exponent + y.Exponent), d, ret0)
+//@   ensures [ovf0] p0ctx(c) && old(bothfin(x, y)) && old(-100000 <= x.Exponent && x.Exponent <= 100000 && -100000 <= y.Exponent && y.Exponent <= 100000) && old(overlimit0(c, val(x.Coeff) * val(y.Coeff), x.Exponent + y.Exponent)) ==> d.Form == Infinite && d.Negative == old(x.Negative != y.Negative) && has(ret0, Overflow) && has(ret0, Inexact)
 //@   ensures [infinv] old(!isnan(x) && !isnan(y) && (x.Form == Infinite || y.Form == Infinite) && (iszero(x) || iszero(y))) ==> (d.Form == NaN && ret0 == InvalidOperation)
 //@   ensures [inf] old(!isnan(x) && !isnan(y) && (x.Form == Infinite || y.Form == Infinite) && !(iszero(x) || iszero(y))) ==> (d.Form == Infinite && d.Negative == old(x.Negative != y.Negative) && ret0 == 0)
 //@   hint pow10_add(c.Precision, nd10(val(x.Coeff) * val(y.Coeff)) - c.Precision)
